@@ -14,7 +14,8 @@ for d in sorted((V / "seeded").iterdir()):
     c = j.get("confirmed", {})
     checks = "; ".join(f"{pid}: {'caught' if v.get('caught') else 'MISSED'} ({v.get('tier')})" for pid, v in c.get("checks", {}).items())
     first = next((v["details"][0].split(" :: ")[0] for v in c.get("checks", {}).values() if v.get("details")), "")
-    rows.append((j["id"], a.get("property", ""), (a.get("summary") or "")[:160], (a.get("needs") or "")[:160], "yes" if c.get("valid") else "NO", checks, first))
+    note = (d / "ASSESSMENT.txt").read_text().strip() if (d / "ASSESSMENT.txt").exists() else ""
+    rows.append((j["id"], a.get("property", ""), (a.get("summary") or "")[:160], (a.get("needs") or "")[:160], "yes" if c.get("valid") else "NO", checks, first, note))
 out = [
     "# Independently written breaking changes",
     "",
@@ -25,8 +26,8 @@ out = [
     "None of these changes is ever committed to /repo. Every patch applies to /repo's current HEAD (`git -C /repo apply --check`); six patches",
     "that edit the helper `_replace_jump_targets` were re-based by hand onto the later fix 8a2d47d (same mutation, new variable names) and re-confirmed.",
     "",
-    "| id | property | change | needs | valid | checks | first signature |",
-    "|---|---|---|---|---|---|---|",
+    "| id | property | change | needs | valid | checks | first signature | assessment |",
+    "|---|---|---|---|---|---|---|---|",
 ]
 for r in rows:
     out.append("| " + " | ".join(str(x).replace("|", "/").replace("\n", " ") for x in r) + " |")
